@@ -304,8 +304,12 @@ fn wide_block(ctx: &mut Ctx, lens: &[usize]) {
             let r = run_call(&*pl.fft, e, &x, &out, &scratch, Some(al));
             let as64: Vec<Complex<f64>> = r.result.iter().map(|c| Complex { re: c.re.v, im: c.im.v }).collect();
             tags_ok &= r.result.iter().all(|c| c.re.tag_ok() && c.im.tag_ok());
-            let obs = if r.panic.is_none() && rs.panic.is_none() {
-                vec![json!({"kind": "bits", "equal": bits_equal(&as64, &rs.result), "finite": true})]
+            // judged against the double-double reference like any f64 transform (a re-typed 24-byte element would give
+            // garbage); bit-equality with the scalar f64 planner is recorded, not required
+            let obs = if r.panic.is_none() {
+                let reference = refdft::fft(&to_cdd(&xf[..n]), d == FftDirection::Inverse);
+                let same_bits = rs.panic.is_none() && bits_equal(&as64, &rs.result);
+                vec![json!({"kind": "err", "ref": "dft", "err_q": err_q(&as64[..n], &reference), "same_bits_as_scalar_f64": same_bits})]
             } else {
                 vec![]
             };
